@@ -106,6 +106,8 @@ EXC = {
     "PickyErr": (lambda msg: verif_val.PickyErr(msg)),
     "LocalErr": (lambda msg: verif_val.make_local_error(msg)),
     "NotRecorded": (lambda msg: verif_val.NotRecorded(msg)),
+    "Outer.Inner": (lambda msg: verif_val.Outer.Inner(msg)),
+    "Outer.Deep.Err": (lambda msg: verif_val.Outer.Deep.Err(msg)),
 }
 _n = [0]
 
@@ -139,12 +141,14 @@ def run_job(job):
         elif cfg["mod"] == "local":
             fn = fn.force_local()
         events = []
+        kept = []               # the caller keeps every value it was handed
         for op in job["ops"]:
             verif_side.log.reset()
             if op == "Call":
                 ev = {"op": "Call", "raised": False, "excls": "", "msgok": True, "same": False, "isnone": False, "detail": ""}
                 try:
                     r = fn(i)
+                    kept.append(r)
                     ev["isnone"] = r is None
                     try:
                         ev["same"] = bool(typed_equal(r, expected))
@@ -155,7 +159,8 @@ def run_job(job):
                         ev["detail"] = ev["detail"] or ("got %s %r" % (type(r).__name__, r))[:200]
                 except Exception as e:
                     ev["raised"] = True
-                    ev["excls"] = type(e).__name__
+                    ev["excls"] = type(e).__qualname__ if "." in type(e).__qualname__ and "<locals>" not in type(e).__qualname__ \
+                        else type(e).__name__
                     ev["msgok"] = msg != "" and msg in str(e)
                     ev["detail"] = str(e)[:160]
                 ev["n"] = sum(1 for it in verif_side.log.take() if it[0] == "Body")
